@@ -76,9 +76,24 @@ PROBES = [
     ("hash_map.literal.temporaries", "print({1: [1], 2: {3: [4]}}.get(2).get(3));"),
     ("error.value.from.native", "try { [1].pop(); [].pop(); } catch e { churn(); print(e.context); }"),
     ("import.in.progress", "import \"gcmod2\"; print(gcmod2.made);"),
+    # modules: what a module body handed out before it failed stays usable (its globals live in the module object); a built-in
+    # rebound in one module is still the built-in in a module imported later
+    ("module.failed.body.closure", "import \"gcreg\"; try { import \"gcfail\"; } catch err { print(err); } churn(); import \"gcother\"; churn(); print(gcreg.hooks[0]()); print(gcreg.hooks[1].get());"),
+    ("module.failed.body.closure.retry", "import \"gcreg\"; try { import \"gcfail\"; } catch err { print(err); } churn(); try { import \"gcfail\"; } catch err { print(type(err)); } churn(); print(gcreg.hooks[0]());"),
+    ("module.builtin.rebound.then.import", "var type = \"circle\"; var clock = [1]; var print2 = print; churn(); import \"gcshapes\"; churn(); print(gcshapes.describe(1)); print(gcshapes.describe(\"one\")); print(type);"),
+    ("module.builtin.rebound.in.module", "import \"gcrebind\"; churn(); import \"gcshapes\"; churn(); print(gcshapes.describe(nil)); print(gcrebind.type);"),
+    ("module.imported.only.by.failed.module", "import \"gcreg\"; try { import \"gcfail2\"; } catch err { print(err); } churn(); print(gcreg.hooks[0]());"),
 ]
 
 PROBE_MODULES = {
+    "gcreg": "var hooks = [];\n",
+    "gcfail": "import \"gcreg\";\nvar greeting = \"hello from plugin\";\nfn hook() { return greeting; }\n#[constructor(new)] class Box { fn get(self) { return greeting + \"!\"; } }\n"
+              "gcreg.hooks.push(hook);\ngcreg.hooks.push(Box.new());\nthrow \"plugin failed\";\n",
+    "gcother": "var greeting = \"I am the OTHER module\";\nvar pad = [[1], [2], [3]];\n",
+    "gcshapes": "fn describe(value) { return type(value); }\n",
+    "gcrebind": "var type = \"rebound in gcrebind\";\n",
+    "gcfail2": "import \"gcinner\";\nimport \"gcreg\";\ngcreg.hooks.push(gcinner.get);\nthrow \"outer failed\";\n",
+    "gcinner": "var secret = [\"inner\", [1]];\nfn get() { return secret; }\n",
     "gcmod": "var data = [1, [2]];\nvar hidden = [\"h\"];\nfn getter() { return hidden; }\n",
     "gcmod2": "fn mk() { var xs = []; var i = 0; while i < 5 { xs.push([i]); i = i + 1; } return xs; }\nvar made = mk();\n",
 }
